@@ -4,6 +4,7 @@
   The odds string enters the translated kernel as its parse result (`none` = `LegacyNewDecFromStr` fails).
 -/
 import Sge.Gen.Kernels
+import SgeProofs.Lemmas.KernelsTie
 import Sge.Core.Orderbook
 namespace Sge.KernelsTie
 open Sge Sge.Core Sge.Gen.Kernels
@@ -17,7 +18,9 @@ theorem krn_tie_BetAmountInt (ov : Dec) (avail : Int) (tr : Dec) (h : PREC < ov.
   have h2 : ¬ ov.raw ≤ Dec.one.raw := by show ¬ ov.raw ≤ PREC; omega
   unfold bet_CalculateBetAmountInt bet_CalculateBetAmount bet_calculateBetAmount bet_CalculateDecimalBetAmount
   simp only [h1, h2, not_true_eq_false, if_false]
-  rfl
+  first
+    | rfl
+    | (unfold calcBetAmountInt; krn_close)
 
 /-- Odds that do not parse, or are not above 1, are an error in the Go source — the model's wager handler refuses
     them before the order book is visited (`chk (decide (PREC < ov.raw))` in `wagerO`). -/
